@@ -1726,6 +1726,7 @@ def app_project_runner__ProjectRunner_removeProcess : List String := [
   "return err",
   "} else {",
   "running.waitForCompletion()",
+  "p.removeRunningProcess(running)",
   "}",
   "}",
   "p.statesMutex.Lock()",
